@@ -382,6 +382,28 @@ func runSession(w *world, sp Spec, dir string) (tr Trace) {
 	}
 	prompt := sp.Prompt
 	rl.Prompt.Primary(func() string { return prompt })
+	if sp.Editor != "" {
+		// the library runs "emacs" or "vi" from PATH once VISUAL and EDITOR are both set (getSystemEditor): both names
+		// are this executable in a directory put first in PATH
+		if exe, err := os.Executable(); err == nil {
+			bin := dir + "/editor-bin"
+			os.MkdirAll(bin, 0o755)
+			os.Symlink(exe, bin+"/vi")
+			os.Symlink(exe, bin+"/emacs")
+			if origPath == "" {
+				origPath = os.Getenv("PATH")
+			}
+			os.Setenv("PATH", bin+":"+origPath)
+			os.Setenv("EDITOR", "vi")
+			os.Setenv("VISUAL", "vi")
+			os.Setenv("RLV_AS_EDITOR", sp.Editor)
+		}
+	} else {
+		// no editor can be started: the commands that need one fail at once
+		os.Unsetenv("RLV_AS_EDITOR")
+		os.Unsetenv("EDITOR")
+		os.Unsetenv("VISUAL")
+	}
 	if sp.Persist != "" {
 		rl.Hint.Persist(sp.Persist)
 	}
@@ -573,7 +595,27 @@ func runSession(w *world, sp Spec, dir string) (tr Trace) {
 	return tr
 }
 
+var origPath string
+
 func main() {
+	// the session child is also the editor of edit-and-execute-command / vi-edit-command-line when a spec asks for
+	// one (EDITOR points back at this executable): "empty" leaves an empty file (the way to give up in bash),
+	// "keep" leaves it as it is, "append" adds text, "fail" exits with an error
+	if how := os.Getenv("RLV_AS_EDITOR"); how != "" && len(os.Args) > 1 {
+		file := os.Args[len(os.Args)-1]
+		switch how {
+		case "empty":
+			os.Truncate(file, 0)
+		case "append":
+			if f, err := os.OpenFile(file, os.O_APPEND|os.O_WRONLY, 0o600); err == nil {
+				f.WriteString(" edited")
+				f.Close()
+			}
+		case "fail":
+			os.Exit(3)
+		}
+		os.Exit(0)
+	}
 	inFd, _ := syscall.Dup(0)
 	outFd, _ := syscall.Dup(1)
 	in := bufio.NewReaderSize(os.NewFile(uintptr(inFd), "specs"), 1<<20)
